@@ -239,6 +239,27 @@ func queryAfterOthers(pi *model.ProviderInfo, q string, lookup []byte) (ob obser
 	return collect(pc, q, lookup)
 }
 
+// plainNeighbour: the provider listed after the case's record has no extended providers; its results are itself alone.
+func plainNeighbour(src pcache.ProviderSource, q string, lookup []byte) (why string) {
+	defer func() {
+		if e := recover(); e != nil {
+			why = fmt.Sprint("panic: ", e)
+		}
+	}()
+	pc, err := pcache.New(pcache.WithSource(src), pcache.WithPreload(true), pcache.WithRefreshInterval(0))
+	if err != nil {
+		return ""
+	}
+	res, err := pc.GetResults(context.Background(), ids.Peer("c17-after"), []byte(q), lookup)
+	if err != nil {
+		return "results of the plain provider listed after the case's record: " + err.Error()
+	}
+	if len(res) != 1 || res[0].Provider == nil || res[0].Provider.ID != ids.Peer("c17-after") {
+		return fmt.Sprintf("the plain provider listed after the case's record has %d results (it has no extended providers)", len(res))
+	}
+	return ""
+}
+
 func expectClass(c string) string {
 	if c == "nil" || c == "empty" {
 		return "none"
@@ -291,7 +312,13 @@ func httpSourceFor(pi *model.ProviderInfo) (pcache.ProviderSource, func(), error
 	if err != nil {
 		return nil, nil, err
 	}
-	all, err := json.Marshal([]*model.ProviderInfo{pi})
+	// the listing holds other providers too: one with extended providers of its own before the case's record, a plain one after
+	// it -- each record is its own, nothing of a neighbour's may show in it
+	before := &model.ProviderInfo{AddrInfo: peer.AddrInfo{ID: ids.Peer("c17-before"), Addrs: addrInfo("x").Addrs}, LastAdvertisementTime: "2024-01-01T00:00:00Z",
+		ExtendedProviders: &model.ExtendedProviders{Providers: []peer.AddrInfo{addrInfo("y")}, Metadatas: [][]byte{otherMD},
+			Contextual: []model.ContextualExtendedProviders{{Override: true, ContextID: "c1", Providers: []peer.AddrInfo{addrInfo("x")}, Metadatas: [][]byte{otherMD}}}}}
+	after := &model.ProviderInfo{AddrInfo: peer.AddrInfo{ID: ids.Peer("c17-after"), Addrs: addrInfo("y").Addrs}, LastAdvertisementTime: "2024-01-01T00:00:00Z"}
+	all, err := json.Marshal([]*model.ProviderInfo{before, pi, after})
 	if err != nil {
 		return nil, nil, err
 	}
@@ -373,6 +400,11 @@ func Run(args []string) *rep.Report {
 					src, closeFn, err := httpSourceFor(pi)
 					if err == nil {
 						ob := query(src, true, tc.Q, lookup)
+						if ob.Err == "" && ob.Panic == "" {
+							if why := plainNeighbour(src, tc.Q, lookup); why != "" {
+								r.Diverge(rep.Divergence{Key: "neighbour-record-leaks", Case: tc, Detail: why})
+							}
+						}
 						closeFn()
 						n++
 						vmu.Lock()
